@@ -107,6 +107,14 @@ def coerce_dtypes(df, dtypes):
             desired = dtypes[c]
             if is_float_dtype(actual) and is_integer_dtype(desired):
                 bad_dtypes.append((c, actual, desired))
+            elif (
+                len(df) == 0
+                and is_object_dtype(actual)
+                and is_datetime64_any_dtype(desired)
+            ):
+                # a block without data rows: pandas cannot infer a datetime
+                # dtype from zero values, there is nothing that failed to parse
+                df[c] = df[c].astype(desired)
             elif is_object_dtype(actual) and is_datetime64_any_dtype(desired):
                 # This can only occur when parse_dates is specified, but an
                 # invalid date is encountered. Pandas then silently falls back
